@@ -110,16 +110,14 @@ pub open spec fn add_defined(l: Value, r: Value) -> bool {
 }
 
 //@ extract src/build/opcode/vm.rs :: impl VM :: fn mul
-//@   rule R1
-//@   subst "Float(f * ff)" => "Float(verif_f64_mul(*f, *ff))"
+//@   rule R1 R6(*f,*ff)
 //@   ret r
 //@   sig <<<
         ensures prim_contract(ArithOp::Mul, *left, *right, r)
 //@   >>>
 //@ end
 //@ extract src/build/opcode/vm.rs :: impl VM :: fn div
-//@   rule R1
-//@   subst "Float(f / ff)" => "Float(verif_f64_div(*f, *ff))"
+//@   rule R1 R6(*f,*ff)
 //@   mutant div_swapped "i.checked_div(*ii)" => "ii.checked_div(*i)" expect div
 //@   mutant fdiv_swapped "verif_f64_div(*f, *ff)" => "verif_f64_div(*ff, *f)" expect div
 //@   ret r
@@ -128,8 +126,7 @@ pub open spec fn add_defined(l: Value, r: Value) -> bool {
 //@   >>>
 //@ end
 //@ extract src/build/opcode/vm.rs :: impl VM :: fn sub
-//@   rule R1
-//@   subst "Float(f - ff)" => "Float(verif_f64_sub(*f, *ff))"
+//@   rule R1 R6(*f,*ff)
 //@   ret r
 //@   sig <<<
         ensures prim_contract(ArithOp::Sub, *left, *right, r)
@@ -137,8 +134,7 @@ pub open spec fn add_defined(l: Value, r: Value) -> bool {
 //@   mutant sub_swapped "i.checked_sub(*ii)" => "ii.checked_sub(*i)" expect sub
 //@ end
 //@ extract src/build/opcode/vm.rs :: impl VM :: fn modulus
-//@   rule R1
-//@   subst "Float(f % ff)" => "Float(verif_f64_rem(*f, *ff))"
+//@   rule R1 R6(*f,*ff)
 //@   mutant mod_min "None if *ii == -1 => Int(0)" => "None if *ii == -1 => Int(1)" expect modulus
 //@   ret r
 //@   sig <<<
@@ -146,8 +142,7 @@ pub open spec fn add_defined(l: Value, r: Value) -> bool {
 //@   >>>
 //@ end
 //@ extract src/build/opcode/vm.rs :: impl VM :: fn add
-//@   rule R1
-//@   subst "P(Float(f + ff))" => "P(Float(verif_f64_add(*f, *ff)))"
+//@   rule R1 R6(*f,*ff)
 //@   subst "P(Str(ns.into()))" => "P(Str(verif_string_into_rcstr(ns)))"
 //@   ret r
 //@   sig <<<
